@@ -224,7 +224,7 @@ def gen_sheet(rng):
 # -- balanced garbage ------------------------------------------------------------------------------------
 ATOMS = ['x', 'foo', 'red', '1', '10px', '50%', '#f00', ':', ',', '!', '"s;}"', "'{'", '/*;*/', '.', '*', '=', '+',
          '>', '~', '|', '$', '%', '^', '&', 'url(u)', 'U+20', '-->', '<!--', 'x\\41 y', 'a\\z', '@kw', '1e3', '-',
-         'important', '#', '/']
+         'important', '#']      # no bare '/': glued to '*' it would open a comment (comments must be balanced too)
 # identifiers whose unescaped value contains a delimiter: region of known finding C04-escaped-delimiter-ident
 ESCAPED_DELIMS = ['\\3b x', 'a\\7d', '\\7b ', '\\28 ', 'x\\5d', '\\3a', '#\\7b', '1\\7d ']
 
